@@ -398,8 +398,10 @@ def g_fix_iset(rng):
     n = rng.randrange(0, 5)
     if rng.random() < 0.5:
         return [("F", r_any(rng, n, 5)), ("F", r_any(rng, n, 5))]
-    # microsecond-scale cases around the 1e-6 trimming
-    return [("F", [rng.randrange(0, 4) * 1000 for _ in range(n)]), ("F", [rng.randrange(0, 4) * 1000 for _ in range(n)])]
+    # microsecond-scale cases around the 1e-6 trimming.  Multiples of 2 us: a trimmed end (x - 1 us) then
+    # never coincides with a lattice point, where float64 noise (3e-6 - 1e-6 > 2e-6) and the exact
+    # rationals of the model legitimately differ (the float gap of DESIGN section 2, not a translation issue)
+    return [("F", [rng.randrange(0, 4) * 2000 for _ in range(n)]), ("F", [rng.randrange(0, 4) * 2000 for _ in range(n)])]
 
 
 def g_correlogram(rng):
